@@ -125,6 +125,12 @@ class _Origins:
         base = target
         while isinstance(base, ast.Subscript):
             base = base.value
+        if isinstance(target, ast.Attribute):
+            # the kept array named directly: numpy.mean(xs, out=atom.coordinates), atom.coordinates += v
+            o = self.classify(target)
+            if o is not None and o[2] == "array":
+                self.found.append((node, norm(target), o[0], o[1], op))
+            return
         if isinstance(target, ast.Name) or (isinstance(target, ast.Subscript) and isinstance(base, (ast.Name, ast.Attribute))):
             if isinstance(target, ast.Name):
                 o = self.origin.get(target.id)
@@ -159,7 +165,7 @@ class _Origins:
                     if isinstance(f, ast.Attribute) and f.attr in _INPLACE_FUNCS and isinstance(f.value, ast.Name) and f.value.id in ("np", "numpy") and n.args:
                         self.write(n, n.args[0], f"`{norm(n)[:60]}` changes in place")
             if isinstance(st, ast.AugAssign):
-                if isinstance(st.target, (ast.Name, ast.Subscript)):
+                if isinstance(st.target, (ast.Name, ast.Subscript, ast.Attribute)):
                     self.write(st, st.target, f"`{norm(st)[:60]}` is an in-place operation on")
             elif isinstance(st, ast.Assign):
                 for t in st.targets:
